@@ -203,6 +203,7 @@ func c04(r *ev.Run) {
 	}
 	r.Require("ask_redirects_observed", 20)
 	c04FailoverNoticed(r)
+	c04AskUnderSaturation(r)
 	r.Require("moved_redirects_observed", 10)
 	r.Require("migrations_completed", 10)
 	r.Require("failovers_completed", 3)
@@ -772,4 +773,105 @@ func c04FailoverNoticed(r *ev.Run) {
 		cl.Close()
 	}
 	r.Require("failovers_noticed_without_periodic_refresh", 1)
+}
+
+// c04AskUnderSaturation: keys of slots that are MIGRATING are written (ASK redirections) while many other sessions keep the target
+// node's connection saturated with multi-key requests. ASKING only counts for the very next command on that connection, so the
+// redirected command has to follow its ASKING directly, whatever else is waiting for that connection. No reply may be a MOVED / ASK.
+func c04AskUnderSaturation(r *ev.Run) {
+	s, err := startSUT(r, false, 60000, 20)
+	if err != nil {
+		r.Internal("start sut: %v", err)
+		return
+	}
+	defer s.Close()
+	cl, err := fakecluster.New(2, 0)
+	if err != nil {
+		r.Internal("fakecluster: %v", err)
+		return
+	}
+	defer cl.Close()
+	cl.AssignContiguous()
+	cl.LogArgs = false
+	a, b := cl.Nodes[0], cl.Nodes[1]
+	svc, err := startRedisSvc(s, cl, cl.Addrs(), RedisOpts{})
+	if err != nil || !svc.WaitRouting(1, 10*time.Second) {
+		r.Internal("service did not start: %v", err)
+		return
+	}
+	nset := 30
+	if r.Tier == "thorough" {
+		nset = 200
+	}
+	keys := keysFor(cl, a, nset, "askm")
+	cl.Lock()
+	for _, k := range keys {
+		sl := fakecluster.Slot([]byte(k))
+		a.SetMigratingLocked(sl, b)
+		b.SetImportingLocked(sl, a)
+	}
+	cl.Unlock()
+	bkeys := keysFor(cl, b, 3000, "sat")
+	stop := make(chan struct{})
+	var wg sync.WaitGroup
+	var mgets int64
+	for g := 0; g < 12; g++ {
+		conn, err := svc.Dial()
+		if err != nil {
+			continue
+		}
+		wg.Add(1)
+		go func(conn *rclient.Conn) {
+			defer wg.Done()
+			defer conn.Close()
+			args := append([]string{"MGET"}, bkeys...)
+			for {
+				select {
+				case <-stop:
+					return
+				default:
+				}
+				if _, err := conn.DoS(30*time.Second, args...); err != nil {
+					return
+				}
+				atomic.AddInt64(&mgets, 1)
+			}
+		}(conn)
+	}
+	time.Sleep(150 * time.Millisecond)
+	conn, err := svc.Dial()
+	if err != nil {
+		close(stop)
+		wg.Wait()
+		r.Internal("dial: %v", err)
+		return
+	}
+	leaked := 0
+	var first string
+	for i, k := range keys {
+		v, err := conn.DoS(30*time.Second, "SET", k, fmt.Sprintf("v%d", i))
+		if err != nil {
+			r.Inconclusive("ask-under-saturation:no-reply")
+			break
+		}
+		if leakIn(v) {
+			leaked++
+			if first == "" {
+				first = fmt.Sprintf("SET %s -> %s", k, v.String())
+			}
+		}
+		r.Count("ask_redirected_writes_under_saturation", 1)
+	}
+	close(stop)
+	conn.Close()
+	wg.Wait()
+	if sutDied(r, s, "ASK under saturation") {
+		return
+	}
+	if leaked > 0 {
+		r.Violation("C04:redirect-leaked-to-client:ask-under-saturation", fmt.Sprintf("%d of %d writes to keys of MIGRATING slots were answered with a MOVED / ASK error while other sessions kept the target's connection busy (both nodes reachable): %s", leaked, len(keys), first),
+			map[string]interface{}{"writes": len(keys), "leaked": leaked, "saturating_sessions": 12, "mgets_completed_meanwhile": atomic.LoadInt64(&mgets)})
+	}
+	r.Case("ask-under-saturation")
+	r.Require("ask_redirected_writes_under_saturation", 20)
 }
